@@ -38,6 +38,8 @@ package streamfilter
 //@ ghost spec statusOK(flow internaltypes.FlowI, APIStream publictypes.APIStreamI) bool = (APIStream.GetType() == publictypes.StreamTypeRequest || len(flt(flow).StatusCode) == 0 || exists(j, 0, len(flt(flow).StatusCode), flt(flow).StatusCode[j] == APIStream.GetResponse().GetStatus()))
 //@ ghost spec queryOK(flow internaltypes.FlowI, APIStream publictypes.APIStreamI) bool = (APIStream.GetType() == publictypes.StreamTypeResponse || forall(j, 0, len(flt(flow).QueryParams), APIStream.GetRequest().DoesQueryParamExist(flt(flow).QueryParams[j].Key) && (flt(flow).QueryParams[j].GetParamValue() == nil || APIStream.GetRequest().DoesQueryParamValueMatch(flt(flow).QueryParams[j].Key, flt(flow).QueryParams[j].GetParamValue().GetString()))))
 //@ ghost spec headersOK(flow internaltypes.FlowI, APIStream publictypes.APIStreamI) bool = (APIStream.GetType() == publictypes.StreamTypeResponse || forall(j, 0, len(flt(flow).Headers), exists(m, 0, len(flt(flow).Headers), flt(flow).Headers[m].Key == flt(flow).Headers[j].Key && APIStream.DoesHeaderValueMatch(flt(flow).Headers[j].Key, hval(flt(flow).Headers[m])))))
+//@ ghost spec plain(flow internaltypes.FlowI) bool = flt(flow).Expressions == nil
+//@ ghost spec unsampled(flow internaltypes.FlowI) bool = flt(flow).SamplePercentage == 0
 //@ ghost spec ownFilterOK(flow internaltypes.FlowI, APIStream publictypes.APIStreamI) bool = headersOK(flow, APIStream) && statusOK(flow, APIStream) && methodOK(flow, APIStream) && queryOK(flow, APIStream)
 
 // "A flow is applied only if the transaction satisfies the flow's OWN filter": each qualification is a function of the
@@ -111,8 +113,8 @@ package streamfilter
 //@   requires fltOK(flow)
 //@   modifies hwit
 //@   allocates map
-//@   ensures[only-own-filter] result && flt(flow).Expressions == nil ==> ownFilterOK(flow, apiStream)
-//@   ensures[always-when-satisfied] flt(flow).SamplePercentage == 0 && flt(flow).Expressions == nil && ownFilterOK(flow, apiStream) ==> result
+//@   ensures[only-own-filter] result && plain(flow) ==> ownFilterOK(flow, apiStream)
+//@   ensures[always-when-satisfied] unsampled(flow) && plain(flow) && ownFilterOK(flow, apiStream) ==> result
 
 // Selection on one trie node: the selected flows are exactly the node's flows whose own filter accepts the transaction,
 // in the node's order, each once. selSrc[r] is the position in the node's list of the r-th selected flow; selPos[j] the
@@ -120,13 +122,12 @@ package streamfilter
 //@ ghost var selSrc gmap[int]int
 //@ ghost var selPos gmap[int]int
 //@ ghost var nsel int
-//@ ghost spec plain(flow internaltypes.FlowI) bool = flt(flow).Expressions == nil
-//@ ghost spec unsampled(flow internaltypes.FlowI) bool = flt(flow).SamplePercentage == 0
 
 //@ func (*FilterNode).getUserFlow
 //@   prop C03
+//@   opaque ownFilterOK, plain, unsampled
 //@   results selected, any
-//@   requires forall(j, 0, len(node.userFlows), fltOK(node.userFlows[j]))
+//@   requires nodeOK(node)
 //@   modifies hwit, selSrc, selPos, nsel
 //@   allocates map
 //@   on entry do nsel = 0
@@ -144,8 +145,9 @@ package streamfilter
 
 //@ func (*FilterNode).getSystemFlow
 //@   prop C03
+//@   opaque ownFilterOK, plain, unsampled
 //@   results selected, any
-//@   requires forall(j, 0, len(node.systemFlowStart), fltOK(node.systemFlowStart[j])) && forall(j, 0, len(node.systemFlowEnd), fltOK(node.systemFlowEnd[j]))
+//@   requires nodeOK(node)
 //@   modifies hwit, selSrc, selPos, nsel
 //@   allocates map
 //@   on entry do nsel = 0
@@ -161,3 +163,76 @@ package streamfilter
 //@   ensures[flag] any <==> len(selected) > 0
 //@   ensures[source] (flowType == internaltypes.SystemFlowStart ==> systemFlow == node.systemFlowStart) && (flowType == internaltypes.SystemFlowEnd ==> systemFlow == node.systemFlowEnd) && (flowType != internaltypes.SystemFlowStart && flowType != internaltypes.SystemFlowEnd ==> len(systemFlow) == 0)
 //@   ensures[node-unchanged] node.systemFlowStart == old(node.systemFlowStart) && node.systemFlowEnd == old(node.systemFlowEnd)
+
+// One node's answer: each of the three lists holds only flows of this node whose own filter accepts the transaction, and
+// every (plain, unsampled) flow of the node whose own filter accepts it is in its list; nil exactly when all are empty.
+//@ ghost func nodeOK(n *FilterNode) bool = forall(j, 0, len(n.userFlows), fltOK(n.userFlows[j])) && forall(j, 0, len(n.systemFlowStart), fltOK(n.systemFlowStart[j])) && forall(j, 0, len(n.systemFlowEnd), fltOK(n.systemFlowEnd[j]))
+//@ func (*FilterNode).getFlow
+//@   prop C03
+//@   opaque ownFilterOK, plain, unsampled
+//@   results res, found
+//@   requires nodeOK(node)
+//@   modifies hwit, selSrc, selPos, nsel
+//@   allocates map, FilterResult
+//@   ensures[found] found <==> res != nil
+//@   ensures[fresh] res != nil ==> !old(allocated(res))
+//@   ensures[non-empty] res != nil ==> res.UserFlow.FlowValid || res.SystemFlowStart.FlowValid || res.SystemFlowEnd.FlowValid
+//@   ensures[flags] res != nil ==> (res.UserFlow.FlowValid <==> len(res.UserFlow.Flow) > 0) && (res.SystemFlowStart.FlowValid <==> len(res.SystemFlowStart.Flow) > 0) && (res.SystemFlowEnd.FlowValid <==> len(res.SystemFlowEnd.Flow) > 0)
+//@   ensures[not-found] !found ==> forall(j, 0, len(node.userFlows), !(plain(node.userFlows[j]) && unsampled(node.userFlows[j]) && ownFilterOK(node.userFlows[j], apiStream)))
+//@   ensures[only-own-filter] res != nil ==> forall(r, 0, len(res.UserFlow.Flow), exists(j, 0, len(node.userFlows), res.UserFlow.Flow[r] == node.userFlows[j]) && (plain(res.UserFlow.Flow[r]) ==> ownFilterOK(res.UserFlow.Flow[r], apiStream)))
+//@   ensures[only-own-filter-start] res != nil ==> forall(r, 0, len(res.SystemFlowStart.Flow), exists(j, 0, len(node.systemFlowStart), res.SystemFlowStart.Flow[r] == node.systemFlowStart[j]) && (plain(res.SystemFlowStart.Flow[r]) ==> ownFilterOK(res.SystemFlowStart.Flow[r], apiStream)))
+//@   ensures[only-own-filter-end] res != nil ==> forall(r, 0, len(res.SystemFlowEnd.Flow), exists(j, 0, len(node.systemFlowEnd), res.SystemFlowEnd.Flow[r] == node.systemFlowEnd[j]) && (plain(res.SystemFlowEnd.Flow[r]) ==> ownFilterOK(res.SystemFlowEnd.Flow[r], apiStream)))
+//@   ensures[always-when-satisfied] forall(j, 0, len(node.userFlows), plain(node.userFlows[j]) && unsampled(node.userFlows[j]) && ownFilterOK(node.userFlows[j], apiStream) ==> res != nil && exists(r, 0, len(res.UserFlow.Flow), res.UserFlow.Flow[r] == node.userFlows[j]))
+//@   ensures[always-when-satisfied-start] forall(j, 0, len(node.systemFlowStart), plain(node.systemFlowStart[j]) && unsampled(node.systemFlowStart[j]) && ownFilterOK(node.systemFlowStart[j], apiStream) ==> res != nil && exists(r, 0, len(res.SystemFlowStart.Flow), res.SystemFlowStart.Flow[r] == node.systemFlowStart[j]))
+//@   ensures[always-when-satisfied-end] forall(j, 0, len(node.systemFlowEnd), plain(node.systemFlowEnd[j]) && unsampled(node.systemFlowEnd[j]) && ownFilterOK(node.systemFlowEnd[j], apiStream) ==> res != nil && exists(r, 0, len(res.SystemFlowEnd.Flow), res.SystemFlowEnd.Flow[r] == node.systemFlowEnd[j]))
+//@   ensures[node-unchanged] node.userFlows == old(node.userFlows) && node.systemFlowStart == old(node.systemFlowStart) && node.systemFlowEnd == old(node.systemFlowEnd)
+
+// Accumulation over the nodes on the traversal: each list grows by the other result's list (flags kept consistent).
+//@ ghost func flagsOK(r *FilterResult) bool = (r.UserFlow.FlowValid <==> len(r.UserFlow.Flow) > 0) && (r.SystemFlowStart.FlowValid <==> len(r.SystemFlowStart.Flow) > 0) && (r.SystemFlowEnd.FlowValid <==> len(r.SystemFlowEnd.Flow) > 0)
+//@ ghost func oth(other internaltypes.FilterTreeResultI) *FilterResult = other.(*FilterResult)
+//@ func (*FilterResult).Extend
+//@   prop C03
+//@   devirt FilterTreeResultI => *FilterResult
+//@   requires f != nil && typeis(other, *FilterResult) && oth(other) != nil && oth(other) != f
+//@   requires flagsOK(f) && flagsOK(oth(other))
+//@   modifies f.UserFlow, f.SystemFlowStart, f.SystemFlowEnd
+//@   ensures[flags] flagsOK(f)
+//@   ensures[user-len] len(f.UserFlow.Flow) == old(len(f.UserFlow.Flow)) + len(oth(other).UserFlow.Flow)
+//@   ensures[user-kept] forall(r, 0, old(len(f.UserFlow.Flow)), f.UserFlow.Flow[r] == old(f.UserFlow.Flow)[r])
+//@   ensures[user-added-at] forall(r, 0, len(oth(other).UserFlow.Flow), f.UserFlow.Flow[old(len(f.UserFlow.Flow)) + r] == oth(other).UserFlow.Flow[r])
+//@   ensures[user-added] forall(r, old(len(f.UserFlow.Flow)), len(f.UserFlow.Flow), f.UserFlow.Flow[r] == oth(other).UserFlow.Flow[r - old(len(f.UserFlow.Flow))])
+//@   ensures[start-len] len(f.SystemFlowStart.Flow) == old(len(f.SystemFlowStart.Flow)) + len(oth(other).SystemFlowStart.Flow)
+//@   ensures[start-kept] forall(r, 0, old(len(f.SystemFlowStart.Flow)), f.SystemFlowStart.Flow[r] == old(f.SystemFlowStart.Flow)[r])
+//@   ensures[start-added-at] forall(r, 0, len(oth(other).SystemFlowStart.Flow), f.SystemFlowStart.Flow[old(len(f.SystemFlowStart.Flow)) + r] == oth(other).SystemFlowStart.Flow[r])
+//@   ensures[start-added] forall(r, old(len(f.SystemFlowStart.Flow)), len(f.SystemFlowStart.Flow), f.SystemFlowStart.Flow[r] == oth(other).SystemFlowStart.Flow[r - old(len(f.SystemFlowStart.Flow))])
+//@   ensures[end-len] len(f.SystemFlowEnd.Flow) == old(len(f.SystemFlowEnd.Flow)) + len(oth(other).SystemFlowEnd.Flow)
+//@   ensures[end-kept] forall(r, 0, old(len(f.SystemFlowEnd.Flow)), f.SystemFlowEnd.Flow[r] == old(f.SystemFlowEnd.Flow)[r])
+//@   ensures[end-added-at] forall(r, 0, len(oth(other).SystemFlowEnd.Flow), f.SystemFlowEnd.Flow[old(len(f.SystemFlowEnd.Flow)) + r] == oth(other).SystemFlowEnd.Flow[r])
+//@   ensures[end-added] forall(r, old(len(f.SystemFlowEnd.Flow)), len(f.SystemFlowEnd.Flow), f.SystemFlowEnd.Flow[r] == oth(other).SystemFlowEnd.Flow[r - old(len(f.SystemFlowEnd.Flow))])
+
+// The URL trie (toolkit-core/urltree) is trusted here: Traversal returns copies of the node values stored on the patterns
+// it considers matching; every stored node holds flows with a configured filter (they were inserted by AddFlow).
+//@ ghost func nodeOKv(n FilterNode) bool = forall(j, 0, len(n.userFlows), fltOK(n.userFlows[j])) && forall(j, 0, len(n.systemFlowStart), fltOK(n.systemFlowStart[j])) && forall(j, 0, len(n.systemFlowEnd), fltOK(n.systemFlowEnd[j]))
+//@ pure APIStreamI.GetURL
+//@ extern URLTree.Traversal
+//@   instantiate T=FilterNode
+//@   modifies nothing
+//@   ensures forall(k, 0, len(result.Value), nodeOKv(result.Value[k]))
+
+// Selection over the whole traversal: the flows returned are flows of the traversed nodes whose own filter accepts the
+// transaction; every (plain, unsampled) flow of a traversed node whose own filter accepts it is returned; when the
+// traversal finds no node, or no flow qualifies, nothing is returned (the transaction passes through untouched).
+//@ func (*FilterTree).GetFlow
+//@   prop C03
+//@   opaque ownFilterOK, plain, unsampled
+//@   results res, found
+//@   requires f != nil && f.tree != nil
+//@   modifies hwit, selSrc, selPos, nsel
+//@   allocates map, FilterResult, FilterNode
+//@   loop 1 modifies hwit, selSrc, selPos, nsel, flows.UserFlow, flows.SystemFlowStart, flows.SystemFlowEnd
+//@   loop 1 invariant[flags] flagsOK(flows) && (found <==> flows.UserFlow.FlowValid || flows.SystemFlowStart.FlowValid || flows.SystemFlowEnd.FlowValid)
+//@   loop 1 invariant[only-own-filter] forall(r, 0, len(flows.UserFlow.Flow), (plain(flows.UserFlow.Flow[r]) ==> ownFilterOK(flows.UserFlow.Flow[r], APIStream)) && exists(k, 0, idx1, exists(j, 0, len(filterNode[k].userFlows), flows.UserFlow.Flow[r] == filterNode[k].userFlows[j])))
+//@   loop 1 invariant[always-when-satisfied] forall(k, 0, idx1, forall(j, 0, len(filterNode[k].userFlows), plain(filterNode[k].userFlows[j]) && unsampled(filterNode[k].userFlows[j]) && ownFilterOK(filterNode[k].userFlows[j], APIStream) ==> found && exists(r, 0, len(flows.UserFlow.Flow), flows.UserFlow.Flow[r] == filterNode[k].userFlows[j])))
+//@   ensures[no-node] len(lookupResult.Value) == 0 ==> !found && res == nil
+//@   ensures[only-own-filter] found ==> typeis(res, *FilterResult) && forall(r, 0, len(res.(*FilterResult).UserFlow.Flow), (plain(res.(*FilterResult).UserFlow.Flow[r]) ==> ownFilterOK(res.(*FilterResult).UserFlow.Flow[r], APIStream)) && exists(k, 0, len(lookupResult.Value), exists(j, 0, len(lookupResult.Value[k].userFlows), res.(*FilterResult).UserFlow.Flow[r] == lookupResult.Value[k].userFlows[j])))
+//@   ensures[always-when-satisfied] forall(k, 0, len(lookupResult.Value), forall(j, 0, len(lookupResult.Value[k].userFlows), plain(lookupResult.Value[k].userFlows[j]) && unsampled(lookupResult.Value[k].userFlows[j]) && ownFilterOK(lookupResult.Value[k].userFlows[j], APIStream) ==> found && typeis(res, *FilterResult) && exists(r, 0, len(res.(*FilterResult).UserFlow.Flow), res.(*FilterResult).UserFlow.Flow[r] == lookupResult.Value[k].userFlows[j])))
